@@ -435,11 +435,15 @@ func runC16(p *core.Prog, r *core.Report) {
 		// no silent success: once Recv failed with something else than io.EOF, every Result returned before the next Recv
 		// carries an error that cannot be nil (the receive error itself, a constructed error, or ctx.Err() where it was tested)
 		var recv *ssa.Call
-		core.Instrs(wf, func(in ssa.Instruction) {
+		core.InstrsDeep(wf, func(in ssa.Instruction) { // (the receive loop may be a function of its own)
 			if c, ok := in.(*ssa.Call); ok && c.Call.IsInvoke() && c.Call.Method.Name() == "Recv" {
 				recv = c
 			}
 		})
+		workFn := wf
+		if recv != nil && recv.Parent() != wf {
+			wf = recv.Parent() // the receive analysis is about the function that holds the receive loop
+		}
 		if recv == nil {
 			core.Undecide("RemoteWorker.work: no Recv call")
 		}
@@ -595,7 +599,7 @@ func runC16(p *core.Prog, r *core.Report) {
 		// the retry loop recognises retryable errors by their exact dynamic type (type switch): a RetryableErr must therefore
 		// be stored unwrapped in Result.Error — wrapping it (fmt.Errorf("…%w", retryable)) silently turns it into a fatal error
 		exactType := false
-		for _, cl := range core.WithClosures(p.Func(pkgWork, "RemoteWorker.Work")) {
+		for _, cl := range core.Family(p.Func(pkgWork, "RemoteWorker.Work"), 1) {
 			core.Instrs(cl, func(in ssa.Instruction) {
 				if t, ok := in.(*ssa.TypeAssert); ok && typeName(t.AssertedType) == "*RetryableErr" {
 					exactType = true
@@ -603,7 +607,7 @@ func runC16(p *core.Prog, r *core.Report) {
 			})
 		}
 		usesAs := false
-		for _, cl := range core.WithClosures(p.Func(pkgWork, "RemoteWorker.Work")) {
+		for _, cl := range core.Family(p.Func(pkgWork, "RemoteWorker.Work"), 1) {
 			core.Instrs(cl, func(in ssa.Instruction) {
 				if c := core.CalleeOf(in); c != nil && calleeKey(c) == "errors.As" {
 					usesAs = true
@@ -639,6 +643,7 @@ func runC16(p *core.Prog, r *core.Report) {
 		r.Check(nRes >= 5 && (wrapped == "" || (usesAs && !exactType)), "C16.R2", "RemoteWorker.work/retryable-unwrapped", "every retryable error is handed to the retry loop in the form the loop recognises (a bare *RetryableErr, since the loop uses a type switch)", "a RetryableErr is wrapped before being stored in Result.Error at "+wrapped+": the type switch in Work treats it as fatal", p.Pos(wf.Pos()))
 		// connect error → retryable
 		okConn := false
+		wf = workFn
 		for _, c := range core.FindInstrs(wf, func(in ssa.Instruction) bool {
 			cc, ok := in.(ssa.CallInstruction)
 			return ok && cc.Common().IsInvoke() && cc.Common().Method.Name() == "ProcessRange"
@@ -654,7 +659,7 @@ func runC16(p *core.Prog, r *core.Report) {
 		// Work's retry closure: *RetryableErr → return err (retry); any other non-nil → derr.NewFatalError
 		w := p.Func(pkgWork, "RemoteWorker.Work")
 		okLoop := false
-		for _, cl := range core.WithClosures(w) {
+		for _, cl := range core.Family(w, 1) { // Work, its retry closure, and a method the classification was moved into
 			var ta *ssa.TypeAssert
 			core.Instrs(cl, func(in ssa.Instruction) {
 				if t, ok := in.(*ssa.TypeAssert); ok && t.CommaOk && typeName(t.AssertedType) == "*RetryableErr" {
